@@ -432,6 +432,26 @@ def s2c(ctx, rep):
             f"the rung systems are given cost_attr=`{U(kwarg(mk[0], 'cost_attr')) if mk and kwarg(mk[0], 'cost_attr') is not None else '?'}` but the "
             f"accumulated cost is written to result[{key}]: rungs record the cost of the current job only, so a resumed trial looks cheaper than "
             "it was and is promoted although it is not eligible")
+    # the accumulated cost survives a pause: entries of the offset table are written by the constructor and by on_trial_result only
+    # (the tuner calls on_trial_remove after every pause - a clean-up there would wipe the cost of the jobs run so far)
+    hs = P.cls("HyperbandScheduler")
+    wr = []
+    for k_ in ctx.family(hs):
+        for m_ in k_.methods.values():
+            for x in walk_shallow(m_.node):
+                tg = []
+                if isinstance(x, (ast.Assign, ast.AugAssign, ast.Delete)):
+                    tg = x.targets if not isinstance(x, ast.AugAssign) else [x.target]
+                hit = any((isinstance(t, ast.Subscript) and U(t.value) == "self._cost_offset") or U(t) == "self._cost_offset" for t in tg) or (
+                    isinstance(x, ast.Call) and isinstance(x.func, ast.Attribute) and U(x.func.value) == "self._cost_offset"
+                    and x.func.attr in ("pop", "clear", "update", "popitem", "setdefault", "__delitem__", "__setitem__"))
+                if hit:
+                    wr.append((m_, x))
+    foreign = [(m_, x) for m_, x in wr if m_.name not in ("__init__", "on_trial_result")]
+    rep.put(bool(wr) and not foreign, "S2", "who_may_write", "HyperbandScheduler._cost_offset is written by the constructor and on_trial_result only", hs,
+            foreign[0][1] if foreign else None, f"{len(wr)} write(s)",
+            f"{foreign[0][0].short if foreign else ''} changes the table of accumulated costs: the cost of a trial's earlier jobs is lost at a pause / removal, the "
+            "next rung records the last job's cost only and a trial that is not eligible under the cost rule is resumed")
 
 
 def s9(ctx, rep):
